@@ -185,11 +185,15 @@ def build_text(desc):
         "compare": lambda: [A.pr(A.Bin("<", s(), s()))],
         "call": lambda: [A.ExprStmt(A.Call(s(), []))],
         "literal_interp": lambda: [A.pr(A.IStr([TEXTS[ti], V("s"), TEXTS[(ti + 1) % len(TEXTS)], A.Str(TEXTS[ti]) if "{" not in TEXTS[ti] and "}" not in TEXTS[ti] else A.Str("x"), TEXTS[ti]]))],
+        # the literal runs over several lines (raw LF / CR LF / CR inside it), multi-byte text before the break, slots right after it
+        "literal_interp_multiline": lambda: [A.pr(A.IStr([("Grüße é✓ " + "x" * k + "\n", "Grüße é✓ " + "x" * k + "\n"), V("s"), ("\r\n", "\r\n"), V("s"), (" é\r", " é\r"), V("s"), ("😀\n\n", "😀\n\n"), A.Str(TEXTS[ti]) if "{" not in TEXTS[ti] and "}" not in TEXTS[ti] else A.Str("x"), " tail"])),
+                                             A.pr(A.IStr([("\n", "\n"), V("s")])), A.pr(A.StrLit("é\n✓\r\n😀" + "y" * k, "é\n✓\r\n😀" + "y" * k)),
+                                             A.pr(A.IStr([("é\n", "é\n"), V("undefined_name")]))],
     }
     return pre + forms[form]()
 
 
-TEXT_FORMS = ["index", "range", "range_open", "for", "concat_eq", "prop_name", "key_read", "key_write", "key_opassign", "pattern_key",
+TEXT_FORMS = ["literal_interp_multiline", "index", "range", "range_open", "for", "concat_eq", "prop_name", "key_read", "key_write", "key_opassign", "pattern_key",
               "slot", "slot_after_text", "len", "print", "print_in_list", "range_assign_rhs", "spread", "type", "compare", "call",
               "literal_interp"]
 
